@@ -228,6 +228,8 @@ def gen_job(seed, profile="general"):
             extra.append({"type": "SolidBodyCauchyStress", "face": {"mask_axis": 1, "mask_value": "max"}, "stress": sg})
         elif pick == "form" and fkind == "Field" and not mesh.get("convert"):
             extra.append({"type": "FormItem", "C_seed": r.randrange(1 << 30), "mu": rfloat(r, 0.2, 1.0), "lmbda": rfloat(r, 0.2, 1.0), "scale": 1.0, "sym": r.random() < 0.3, "_top": rfloat(r, 0.5, 1.5)})
+            if not extra[-1]["sym"] and r.random() < 0.5:
+                extra[-1]["nonsym"] = True  # a non-conservative (not major-symmetric) coefficient tensor
         elif pick == "pressure" and quadhex and fkind != "Mixed3":
             extra.append({"type": "SolidBodyPressure", "face": {"mask_axis": 1, "mask_value": "max"}, "pressure": 0.0, "_top": rfloat(r, -0.3, 0.3)})
     if fkind == "Mixed3":
